@@ -183,7 +183,8 @@ struct Iso
   vr::Report *rep = nullptr;
   int hangs = 0, crashes = 0;
   bool aborted = false;
-  double stall = 10;
+  double stall = 30;                 // seconds without a finished case inside the evaluator = non-termination
+  std::function<void()> tick;        // called ~4x per second while waiting (keeps the outer supervisor's heartbeat alive)
 
   void merge()
   {
@@ -274,6 +275,8 @@ struct Iso
           continue;
         }
         double t = vr::now_s();
+        if (tick)
+          tick();
         if (g_shm->beats != lastBeat)
         {
           lastBeat = g_shm->beats;
